@@ -230,13 +230,13 @@ macro_rules! mcp_inorder {
     };
 }
 
-//@K props=C04 tier=quick label=bnd feat=nostd fn=DynCtx::match_call_pattern[InOrder] bound=patterns=0
+//@K props=C04,C07 tier=quick label=bnd feat=nostd fn=DynCtx::match_call_pattern[InOrder] bound=patterns=0
 mcp_inorder!(mcp_inorder_n0, 0);
-//@K props=C04 tier=quick label=bnd feat=nostd fn=DynCtx::match_call_pattern[InOrder] bound=patterns=1
+//@K props=C04,C07 tier=quick label=bnd feat=nostd fn=DynCtx::match_call_pattern[InOrder] bound=patterns=1
 mcp_inorder!(mcp_inorder_n1, 1);
-//@K props=C04 tier=quick label=bnd feat=nostd fn=DynCtx::match_call_pattern[InOrder] bound=patterns=2
+//@K props=C04,C07 tier=quick label=bnd feat=nostd fn=DynCtx::match_call_pattern[InOrder] bound=patterns=2
 mcp_inorder!(mcp_inorder_n2, 2);
-//@K props=C04 tier=thorough label=bnd feat=nostd fn=DynCtx::match_call_pattern[InOrder] bound=patterns=3 timeout=1200
+//@K props=C04,C07 tier=thorough label=bnd feat=nostd fn=DynCtx::match_call_pattern[InOrder] bound=patterns=3 timeout=1200
 mcp_inorder!(mcp_inorder_n3, 3);
 
 fn any_info() -> MockFnInfo {
